@@ -302,13 +302,13 @@ impl<'a, 'p, 'ast> Lexer<'a, 'p, 'ast> {
                         state = State::IntDigits(false);
                     } else if !underscore && self.eat_byte(b'_') {
                         state = State::IntDigits(true);
+                    } else if underscore {
+                        let span = self.make_span(self.end_pos - 1, self.end_pos);
+                        return Err(LexError::MissingDigitAfterUnderscore { span });
                     } else if self.eat_byte(b'.') {
                         state = State::Dot;
                     } else if self.eat_byte_if(|b| matches!(b, b'e' | b'E')) {
                         state = State::Exp;
-                    } else if underscore {
-                        let span = self.make_span(self.end_pos - 1, self.end_pos);
-                        return Err(LexError::MissingDigitAfterUnderscore { span });
                     } else {
                         break;
                     }
@@ -330,11 +330,11 @@ impl<'a, 'p, 'ast> Lexer<'a, 'p, 'ast> {
                         state = State::FracDigits(false);
                     } else if !underscore && self.eat_byte(b'_') {
                         state = State::FracDigits(true);
-                    } else if self.eat_byte_if(|b| matches!(b, b'e' | b'E')) {
-                        state = State::Exp;
                     } else if underscore {
                         let span = self.make_span(self.end_pos - 1, self.end_pos);
                         return Err(LexError::MissingDigitAfterUnderscore { span });
+                    } else if self.eat_byte_if(|b| matches!(b, b'e' | b'E')) {
+                        state = State::Exp;
                     } else {
                         break;
                     }
